@@ -52,6 +52,7 @@ list_insert = _op("list_insert", 3)
 list_append = _op("list_append", 2)
 list_extend = _op("list_extend", 2)
 list_contains = F("list_contains", Val, Val, BoolS)
+list_index = F("list_index", Val, Val, IntS)      # least index of an element that is (or ==) the value
 list_remove = _op("list_remove", 2)
 list_pop_ok = F("list_pop_ok", Val, Val, BoolS)
 list_pop_item = _op("list_pop_item", 2)
@@ -104,6 +105,7 @@ LIST_OPS = {
     "iadd": dict(new=lambda c, a: list_extend(c, a[0])),
     "contains": dict(result=lambda c, a: list_contains(c, a[0])),
     "remove": dict(raises=[(VE, lambda c, a: z3.Not(list_contains(c, a[0])))], new=lambda c, a: list_remove(c, a[0])),
+    "index": dict(raises=[(VE, lambda c, a: z3.Not(list_contains(c, a[0])))], result=lambda c, a: list_index(c, a[0])),
     "pop": dict(raises=[(IE, lambda c, a: z3.Not(list_pop_ok(c, a[0])))], result=lambda c, a: list_pop_item(c, a[0]),
                 new=lambda c, a: list_pop_rest(c, a[0])),
     "reverse": dict(new=lambda c, a: list_reverse(c)),
